@@ -110,6 +110,31 @@ def r5_type_table(prog, res, prop="C02"):
             stat.discharged += 1
             stat.sample({"row": name, "member": member, "traced_words": ln,
                          "sexp_fields": [p for (p, t, o, s, f) in fields if t == SEXP_T]})
+    # C types registered at run time with constant layout arguments (sexp_register_c_type expands to
+    # sexp_register_type_op(ctx, NULL, n, name, parent, slots, fb, felb, flb, flo, fls, sb, ...)):
+    # objects of cpointer size must have cpointer.parent in their traced range
+    cp = L.member_fields("cpointer") or []
+    parent_off = [o for (p_, t, o, sz, f) in cp if p_ == "parent"]
+    if parent_off:
+        for fn in prog.all_funcs():
+            for i, nd in enumerate(fn.nodes):
+                if nd["k"] != "call" or nd.get("o") != "sexp_register_type_op" or len(nd["c"]) < 13:
+                    continue
+                a = nd["c"][1:]
+                vals = [tables.unbox_fixnum(fn.const_val(x)) if fn.const_val(x) is not None else None for x in a]
+                fb, felb, flb, sb = vals[6], vals[7], vals[8], vals[11]
+                if sb != L.sexp_sizeof("cpointer") or fb is None or flb is None:
+                    continue
+                stat.sites += 1
+                stat.obligations += 1
+                if fb == parent_off[0] and flb >= 1 and all(
+                        (L.field_at("cpointer", fb + 8 * k) or (None, None))[1] == SEXP_T for k in range(flb)):
+                    stat.discharged += 1
+                else:
+                    res.add(Finding(prop, "R5.untraced-ref-field", fn.name, "registered C type: cpointer.parent",
+                                    fn.where(i), "%s registers a cpointer-sized type whose traced range (field_base %s, %s words) "
+                                    "does not cover cpointer.parent: a child pointer does not keep the parent object (and the C "
+                                    "memory it owns) alive" % (fn.name, fb, flb), unit=fn.unit.display))
     return stat
 
 
